@@ -15,15 +15,18 @@ def main():
     if not os.path.exists("/opt/veriftools/tla/tla2tools.jar"):
         print("missing tla2tools.jar")
         ok = False
+    import tempfile
+    jtmp = tempfile.mkdtemp(prefix="spsany_")      # SANY unpacks the standard modules into java.io.tmpdir: keep /tmp clean
     spec = os.path.join(os.path.dirname(os.path.dirname(os.path.abspath(__file__))), "spec")
     for mod in sorted(f for f in os.listdir(spec) if f.endswith(".tla")):
-        r = subprocess.run(["java", "-DTLA-Library=/opt/veriftools/tlapm/lib/tlapm/stdlib",     # TLAPS.tla for the proof module
+        r = subprocess.run(["java", "-Djava.io.tmpdir=" + jtmp, "-DTLA-Library=/opt/veriftools/tlapm/lib/tlapm/stdlib",     # TLAPS.tla for the proof module
                             "-cp", "/opt/veriftools/tla/tla2tools.jar:/opt/veriftools/tla/CommunityModules-deps.jar",
                             "tla2sany.SANY", mod], cwd=spec, stdout=subprocess.PIPE, stderr=subprocess.STDOUT, text=True)
         if "Fatal" in r.stdout or "*** Errors" in r.stdout or "Could not" in r.stdout:
             print("SANY rejects", mod)
             print(r.stdout[-800:])
             ok = False
+    shutil.rmtree(jtmp, ignore_errors=True)
     os.makedirs(os.path.join(os.path.dirname(spec), "evidence"), exist_ok=True)
     print("setup ok" if ok else "setup FAILED")
     return 0 if ok else 1
